@@ -15,7 +15,9 @@ pub const RULE_POOL: [&str; 43] = [
 ];
 /// two fail at parse (`p#a`, `ˈ`), the rest parse; which ones fail at apply depends on the rule
 /// `pa\u{303}` / `ˈpa\u{303}`: a segment that needs a diacritic, stressed and unstressed (a romaniser with `+` prints it from its nearest plain letter)
-pub const WORD_POOL: [&str; 15] = ["pa", "ta.pi", "ˈpa.taˌki", "a", "t", "paː", "ła.ta", "ɬa.ta", "p#a", "ˈ", "sa.pa51", "pad", "tka", "pa\u{303}", "ˈpa\u{303}"];
+pub const WORD_POOL: [&str; 17] = ["pa", "ta.pi", "ˈpa.taˌki", "a", "t", "paː", "ła.ta", "ɬa.ta", "p#a", "ˈ", "sa.pa51", "pad", "tka", "pa\u{303}", "ˈpa\u{303}",
+    // the same words typed with the shorthands the word reader normalises (`:` for the length mark, the precomposed tilde vowel)
+    "pa:", "p\u{e3}"];
 
 fn g(rules: &[&str]) -> Vec<RuleGroup> { rules.iter().map(|r| RuleGroup { name: String::new(), rule: vec![r.to_string()], description: String::new() }).collect() }
 /// the alias lines of a job: (deromanisers, romanisers)
@@ -23,9 +25,12 @@ pub type Al = (&'static [&'static str], &'static [&'static str]);
 pub const NO_ALIAS: Al = (&[], &[]);
 /// alias sets whose effect on one word depends on that word only: a `+` romaniser conditioned on stress / length (matches some occurrences of a
 /// segment and not others), a deromaniser with its inverse, boundary removal
-pub const ALIAS_SETS: [Al; 6] = [(&[], &["V:[+str] => +@{acute}"]), (&["sh > ʃ", "A > a:[+long]"], &["ʃ > sh", "a:[+long] > A"]), (&[], &["$ > *", "V:[+long] > +@{macron}", "[+nasal] > +N"]), (&["q > k"], &["[] > +x"]),
+pub const ALIAS_SETS: [Al; 8] = [(&[], &["V:[+str] => +@{acute}"]), (&["sh > ʃ", "A > a:[+long]"], &["ʃ > sh", "a:[+long] > A"]), (&[], &["$ > *", "V:[+long] > +@{macron}", "[+nasal] > +N"]), (&["q > k"], &["[] > +x"]),
     // a boundary romaniser with a non-empty replacement: what it does to the marks that open a word must not depend on the word's place in the line
-    (&[], &["$ > ·"]), (&[], &["$ > \\-", "a > A"])];
+    (&[], &["$ > ·"]), (&[], &["$ > \\-", "a > A"]),
+    // deromanisers whose string only occurs in a word after the reader has normalised it (`:` typed for `ː`, a precomposed tilde vowel): whether
+    // they apply to a word must not depend on how the other words of the list are spelled
+    (&["aː > u"], &[]), (&["a\u{303} > o", "aː > e"], &["o > O"])];
 fn al_index(al: Al) -> i64 { ALIAS_SETS.iter().position(|x| *x == al).map(|x| x as i64).unwrap_or(-1) }
 fn al_tag(al: Al) -> String { if al.0.is_empty() && al.1.is_empty() { String::new() } else { format!("|into {:?} from {:?}", al.0, al.1) } }
 fn run(al: Al, rules: &[RuleGroup], words: &[String]) -> Out<Result<Vec<String>, String>> {
